@@ -287,6 +287,12 @@ class LifecycleModel:
         # a handler may already run in the late set-up window (several listeners are started one after the other), never while stopped
         self._filter(lambda c: c.phase != STOPPED, "no-handler-activity-while-stopped", "handler", "a request handler ran")
 
+    def observe_not_stopped(self, what: str = "listener-open", seq: Any = None) -> None:
+        """evidence that some serve_forever is between its start and its end right now (e.g. the standalone servers own a
+        listener socket only from the set-up to the tear-down of one serve_forever call)"""
+        self.history.append((what,) if seq is None else (seq, what))
+        self._filter(lambda c: c.phase != STOPPED, "listener-exists-only-while-a-serve_forever-is-in-progress", what, f"{what}: a serve_forever must be in progress")
+
     def observe_is_serving(self, value: bool, seq: Any = None) -> None:
         self.history.append(("is_serving", value) if seq is None else (seq, "is_serving", value))
         allowed = self.true_in if value else self.false_in
